@@ -266,6 +266,90 @@ def matrix_cases(v: str, ftable, full_pool: bool = False) -> list[tuple[str, str
     return out
 
 
+# ----------------------------------------------------------------------- magnitude matrices
+# extreme-magnitude numeric operands: as literals (static evaluation at parse time) and as variables
+MAG_LITERALS = [
+    '0', '1', '3', '-7', '0.1', '0.0', '1000000000000000000000000000', '1000000000000000000000000000000',
+    '1000000000000000000000000000000.0', '1000000000000000000000000000.0', '0.0000000000000000000000000001',
+    '1234567890123456789012345678901234567890.5', '0.1234567890123456789012345678901234567890',
+    '99999999999999999999999999999999999999999999999999', '1e308', '1.7976931348623157e308', '-1.7976931348623157e308',
+    '5e-324', '2.2250738585072014e-308', '1e400', '1e-400', '0e0', '-0e0', '9007199254740993', '9223372036854775808',
+]
+MAG_TYPED = ["xs:float('3.4028235e38')", "xs:float('1e-45')", "xs:float('-INF')", "xs:double('NaN')", "xs:double('INF')",
+             "xs:decimal('1E-28')" , "xs:integer('1' || '000000000000000000000000000000')"]
+MAG_VARS = ['$gi27', '$gi30', '$gd27', '$gdp1', '$gdm28', '$gd40', '$gf308', '$gfsub', '$gfneg', '$ginf', '$gnan', '$gd1e40']
+ARITH_OPS = ['+', '-', '*', 'div', 'idiv', 'mod']
+
+
+def magnitude_variables() -> dict:
+    from decimal import Decimal
+    return {'gi27': 10 ** 27, 'gi30': 10 ** 30, 'gd27': Decimal(10) ** 27, 'gdp1': Decimal('0.1'),
+            'gdm28': Decimal('1E-28'), 'gd40': Decimal('1234567890123456789012345678901234567890.5'),
+            'gf308': 1e308, 'gfsub': 5e-324, 'gfneg': -1.7976931348623157e308, 'ginf': float('inf'),
+            'gnan': float('nan'), 'gd1e40': Decimal('1E+40')}
+
+
+def magnitude_cases(v: str) -> list[tuple[str, str]]:
+    """every arithmetic operator x extreme operand x extreme operand (literals: evaluated statically at
+    parse time; variables: at evaluation time), unary minus, rounding with large precisions, numeric
+    functions, casts between numeric types, formatting, math:*"""
+    lits = list(MAG_LITERALS) + ([t for t in MAG_TYPED if '||' not in t or v >= '3.0'] if v != '1.0' else [])
+    ops = [o for o in ARITH_OPS if v != '1.0' or o != 'idiv']
+    out = []
+    for op in ops:
+        for a in lits:
+            for b in lits:
+                out.append((f'{a} {op} {b}', 'magnitude-op'))
+        for a in MAG_VARS:
+            for b in MAG_VARS:
+                out.append((f'{a} {op} {b}', 'magnitude-op'))
+            for b in ('0.1', '3', '1e308', '1000000000000000000000000000000.0'):
+                out.append((f'{a} {op} {b}', 'magnitude-op'))
+                out.append((f'{b} {op} {a}', 'magnitude-op'))
+    vals = lits + MAG_VARS
+    cmp_ops = ['=', '<', '!='] + (['eq', 'lt', 'ge'] if v != '1.0' else [])
+    for a in vals:
+        out.append((f'-{a}', 'magnitude-op'))
+        out.append((f'- -{a}', 'magnitude-op'))
+        for op in cmp_ops:
+            for b in ('0.1', '$gd40', '1e308', '$gi30'):
+                out.append((f'{a} {op} {b}', 'magnitude-op'))
+        forms = ['round(%s)', 'floor(%s)', 'ceiling(%s)', 'number(%s)', 'string(%s)', 'boolean(%s)', 'sum(%s)',
+                 "substring('abcdef', %s)", "substring('abcdef', 2, %s)", 'concat(%s, %s)', 'string-length(string(%s))']
+        if v != '1.0':
+            forms += ['abs(%s)', 'round-half-to-even(%s)', 'sum((%s, %s))', 'avg((%s, 1))', 'avg((%s, %s))', 'max((%s, 1))',
+                      'min((%s, 0.5))', 'sum((%s, 0.1, 1e0))', 'subsequence((1, 2, 3), %s)', 'subsequence((1, 2, 3), 1, %s)',
+                      'remove((1, 2), %s)', 'insert-before((1, 2), %s, 3)', '(1, 2, 3)[%s]', '(1 to 3)[position() = %s]',
+                      'xs:integer(%s)', 'xs:decimal(%s)', 'xs:double(%s)', 'xs:float(%s)', 'xs:int(%s)', 'xs:long(%s)',
+                      'xs:unsignedByte(%s)', 'xs:nonNegativeInteger(%s)', 'xs:string(%s)', 'xs:boolean(%s)',
+                      'xs:untypedAtomic(%s)', '%s cast as xs:integer', '%s cast as xs:decimal', '%s cast as xs:float',
+                      '%s castable as xs:long', '%s instance of xs:decimal', 'xs:decimal(xs:double(%s))',
+                      'xs:integer(xs:float(%s))', 'xs:dayTimeDuration("PT1S") * %s', 'xs:dayTimeDuration("PT1S") div %s',
+                      'xs:yearMonthDuration("P1M") * %s', 'xs:yearMonthDuration("P1Y") div %s',
+                      'xs:date("2001-01-01") + xs:dayTimeDuration("P1D") * %s', 'codepoints-to-string(xs:integer(%s))',
+                      'string-join(("a", "b"), string(%s))', 'distinct-values((%s, %s, 1))', 'index-of((1, 2), %s)',
+                      'deep-equal(%s, %s)', 'compare(string(%s), "1")', 'xs:gYear(string(xs:integer(%s)))',
+                      'implicit-timezone() * %s', 'adjust-dateTime-to-timezone(current-dateTime(), xs:dayTimeDuration("PT1H") * %s)']
+            for p in ('0', '5', '28', '40', '400', '-5', '-40', '-400'):
+                forms += [f'round-half-to-even(%s, {p})'] + ([f'round(%s, {p})'] if v >= '3.0' else [])
+        if v >= '3.0':
+            forms += ["format-number(%s, '#.###')", "format-number(%s, '0.0e0')", "format-number(%s, '#,##0.00')",
+                      "format-number(%s, '000000000000000000000000000000000000000000.0')", "format-number(%s, '#%%')",
+                      "format-integer(xs:integer(%s), '1')", "format-integer(xs:integer(%s), 'w')", "format-integer(xs:integer(%s), 'i')",
+                      "format-integer(xs:integer(%s), 'A')", 'math:sqrt(%s)', 'math:exp(%s)', 'math:log(%s)', 'math:log10(%s)',
+                      'math:sin(%s)', 'math:cos(%s)', 'math:tan(%s)', 'math:asin(%s)', 'math:acos(%s)', 'math:atan(%s)',
+                      'math:pow(%s, 2)', 'math:pow(%s, 0.5)', 'math:pow(2, %s)', 'math:pow(%s, %s)', 'math:atan2(%s, 1)',
+                      'math:atan2(1, %s)', '%s ! (. * .)', 'for-each((%s, 1), function($x) { $x * $x })',
+                      'fold-left((%s, %s, %s), 0, function($a, $b) { $a + $b })', 'string(%s) || "x"', 'head((%s, 1)) div tail((1, %s))']
+        if v >= '3.1':
+            forms += ['map{%s: 1}', 'map{%s: 1}(%s)', '[%s](1) + 1', 'array:get([1, 2], xs:integer(%s))', 'array:subarray([1, 2], %s)',
+                      'sort((%s, 1, 0.5))', 'serialize(%s, map{"method": "json"})', 'parse-json(string(%s))', 'xml-to-json(json-to-xml(string(%s)))',
+                      'array:remove([1, 2], xs:integer(%s))', 'map:merge((map{%s: 1}, map{%s: 2}))']
+        for f in forms:
+            out.append((f.replace('%s', a), 'magnitude-fn'))
+    return out
+
+
 def vle(v: str, w: str) -> bool:
     return VERSIONS.index(v) <= VERSIONS.index(w)
 
